@@ -48,8 +48,7 @@ m = {
     "not_applicable": na,
     "notes": "Every check: ./check <ID> quick|thorough, honours VERIF_SEED; exit 0 held / 1 VIOLATION line / 2 inconclusive (build failure, time budget, unreproducible worker death). Known findings and fixed defects: /verif/known_findings.json.",
 }
-if not na:
-    del m["not_applicable"]
+# (an empty list is kept: every property is claimed, none is set aside - see DESIGN.md section 7)
 json.dump(m, open(os.path.join(VERIF, "MANIFEST.json"), "w"), indent=1)
 print("MANIFEST.json: %d checks, %d not claimed" % (len(checks), len(na)))
 try:
